@@ -75,9 +75,78 @@ Section Decoders.
     (dom n <- txt_loop (S (Z.to_nat (remaining s))) 0%nat;
      match n with O => raise (XInt iValueError) | _ => ret tt end) s.
 
+  (* bytes.decode("utf8"): strict UTF-8 (no overlong forms, no surrogates, at most U+10FFFF) *)
+  Definition cont (b : Z) : bool := (128 <=? b) && (b <=? 191).
+  Fixpoint utf8_valid (l : list Z) : bool :=
+    match l with
+    | [] => true
+    | b0 :: r0 =>
+        if b0 <? 128 then utf8_valid r0
+        else if b0 <? 194 then false
+        else if b0 <? 224 then
+          match r0 with b1 :: r1 => cont b1 && utf8_valid r1 | _ => false end
+        else if b0 <? 240 then
+          match r0 with
+          | b1 :: b2 :: r2 =>
+              (if b0 =? 224 then (160 <=? b1) && (b1 <=? 191)
+               else if b0 =? 237 then (128 <=? b1) && (b1 <=? 159)
+               else cont b1) && cont b2 && utf8_valid r2
+          | _ => false
+          end
+        else if b0 <? 245 then
+          match r0 with
+          | b1 :: b2 :: b3 :: r3 =>
+              (if b0 =? 240 then (144 <=? b1) && (b1 <=? 191)
+               else if b0 =? 244 then (128 <=? b1) && (b1 <=? 143)
+               else cont b1) && cont b2 && cont b3 && utf8_valid r3
+          | _ => false
+          end
+        else false
+    end.
+
+  (* bytes.rstrip(b"\x00") *)
+  Definition rstrip_nul (l : list Z) : list Z :=
+    rev ((fix go (r : list Z) : list Z := match r with 0 :: r' => go r' | _ => r end) (rev l)).
+
+  (* dns.edns option classes (cls.from_wire_parser + the constructor's validation); the option
+     codes 22-25 have classes that are not modelled (the harness does not send them) *)
+  Definition dec_ecs : M unit :=
+    dom h <- get_struct wire [2; 1; 1];
+    match h with
+    | [family; src; scope] =>
+        dom _ <- get_bytes wire ((src + 7) / 8);           (* int(math.ceil(src / 8.0)) *)
+        if family =? 1 then
+          (* inet_ntoa needs 4 octets (SyntaxError); the constructor srclen, scopelen <= 32 (ValueError) *)
+          if (src <=? 32) && (scope <=? 32) then ret tt else raise (XInt iValueError)
+        else if family =? 2 then
+          if (src <=? 128) && (scope <=? 128) then ret tt else raise (XInt iValueError)
+        else raise (XInt iValueError)
+    | _ => raise (XInt iIndexError)
+    end.
+
+  Definition dec_cookie : M unit :=
+    dom _ <- get_bytes wire 8;
+    dom server <- get_remaining wire;
+    let n := zlen server in
+    if (n =? 0) || ((8 <=? n) && (n <=? 32)) then ret tt else raise (XInt iValueError).
+
+  Definition dec_ede : M unit :=
+    dom _ <- get_uint16 wire;
+    dom text <- get_remaining wire;
+    match text with
+    | [] => ret tt
+    | _ => if utf8_valid (rstrip_nul text) then ret tt else raise (XInt iValueError)   (* UnicodeDecodeError *)
+    end.
+
+  Definition dec_option (otype : Z) : M unit :=
+    if otype =? 8 then dec_ecs
+    else if otype =? 10 then dec_cookie
+    else if otype =? 15 then dec_ede
+    else if otype =? 18 then dom _ <- get_name wire None; ret tt
+    else dom _ <- get_remaining wire; ret tt.      (* NSID and GenericOption *)
+
   (* OPT.from_wire_parser: while remaining > 0: (otype, olen) = get_struct("!HH");
-     with restrict_to(olen): option_from_wire_parser(otype, parser).  Only option codes without
-     a specific class are modelled: GenericOption = get_remaining *)
+     with restrict_to(olen): option_from_wire_parser(otype, parser) *)
   Fixpoint opt_loop (fuel : nat) : M unit :=
     match fuel with
     | O => raise (XInt iFuel)
@@ -85,7 +154,7 @@ Section Decoders.
         if remaining s >? 0 then
           (dom h <- get_struct wire [2; 2];
            match h with
-           | [_; olen] => dom _ <- restrict_to olen (get_remaining wire); opt_loop f
+           | [otype; olen] => dom _ <- restrict_to olen (dec_option otype); opt_loop f
            | _ => raise (XInt iIndexError)
            end) s
         else (Val tt, s)
